@@ -47,11 +47,22 @@ ROT = {"rot_x": vanilla.RotXInstruction, "rot_y": vanilla.RotYInstruction, "rot_
 TWO = {"cnot": vanilla.CnotInstruction, "cphase": vanilla.CphaseInstruction}
 
 
-def _transpile(ctx, instrs, debug=False):
-    sub = Subroutine(instructions=instrs, app_id=0)
-    tr = ctx.call(TR.NVSubroutineTranspiler, sub, debug)
-    out = ctx.call(tr.transpile)
-    return ctx.getattr(out, "instructions")
+def _transpile(ctx, instrs, debug=False, hw=None):
+    """hw: None = the setting as it is (simulation mode); otherwise the (possibly symbolic) value of settings.get_is_using_hardware()"""
+    if hw is not None:
+        if ctx.symbolic:
+            ctx.it.stubs = dict(ctx.it.stubs or {})
+            ctx.it.stubs[settings.get_is_using_hardware] = lambda it_, a, k: hw
+        else:
+            settings.set_is_using_hardware(bool(hw))
+    try:
+        sub = Subroutine(instructions=instrs, app_id=0)
+        tr = ctx.call(TR.NVSubroutineTranspiler, sub, debug)
+        out = ctx.call(tr.transpile)
+        return ctx.getattr(out, "instructions")
+    finally:
+        if hw is not None and not ctx.symbolic:
+            settings.set_is_using_hardware(False)
 
 
 def _gate_list(ctx, instrs, wire_of_value):
@@ -97,7 +108,8 @@ def build():
             def f(ctx):
                 qid = ctx.int("id", 0, 15)
                 dbg = ctx.bool("debug")
-                out = _transpile(ctx, [core.SetInstruction(reg=Q[0], imm=Immediate(qid)), cls(reg=Q[0])], dbg)
+                hw = ctx.bool("hardware")
+                out = _transpile(ctx, [core.SetInstruction(reg=Q[0], imm=Immediate(qid)), cls(reg=Q[0])], dbg, hw)
                 gl = _gate_list(ctx, out, lambda v: 0)
                 U = gates.circuit_unitary(gl, 1)
                 ctx.check("unitary-equals-gate-up-to-phase", cyc.eq_up_to_phase(U, gates.vanilla_unitary(name, [0], 1)))
@@ -113,9 +125,10 @@ def build():
                 b = ctx.int("id1", 0, 15)
                 ctx.assume(ctx.not_(ctx.eq(a, b)))
                 dbg = ctx.bool("debug")
+                hw = ctx.bool("hardware")
                 # which of the two is the electron is decided by the code's own forks; classify on the path afterwards
                 out = _transpile(ctx, [core.SetInstruction(reg=Q[3], imm=Immediate(a)),
-                                       core.SetInstruction(reg=Q[5], imm=Immediate(b)), cls(reg0=Q[3], reg1=Q[5])], dbg)
+                                       core.SetInstruction(reg=Q[5], imm=Immediate(b)), cls(reg0=Q[3], reg1=Q[5])], dbg, hw)
                 a0 = ctx.truth(ctx.eq(a, 0))
                 b0 = ctx.truth(ctx.eq(b, 0))
                 # wires: 0 = electron, 1 = first carbon operand, 2 = second carbon operand
@@ -146,7 +159,7 @@ def build():
         ctx.assume(ctx.not_(ctx.eq(a, b)))
         ctx.assume(ctx.or_(ctx.eq(a, 0), ctx.eq(b, 0)))
         out = _transpile(ctx, [core.SetInstruction(reg=Q[1], imm=Immediate(a)),
-                               core.SetInstruction(reg=Q[2], imm=Immediate(b)), vanilla.MovInstruction(reg0=Q[1], reg1=Q[2])])
+                               core.SetInstruction(reg=Q[2], imm=Immediate(b)), vanilla.MovInstruction(reg0=Q[1], reg1=Q[2])], False, ctx.bool("hardware"))
         a0 = ctx.truth(ctx.eq(a, 0))
         ws, wd = (0, 1) if a0 else (1, 0)
 
